@@ -605,8 +605,15 @@ func (h *harness) bigShardCases(r *gen.Rand, n int) {
 	for i := 0; i < n; i++ {
 		rp := genRepo(r, "bigrepo")
 		var docs []docSpec
-		mode := i % 3
+		mode := i % 4
 		switch mode {
+		case 3: // more than 256 distinct languages (two-byte language codes)
+			for j := 0; j < 300; j++ {
+				d := genDoc(r, rp, j, 6, 0, false)
+				d.Language = fmt.Sprintf("Lang-%d", j)
+				d.Symbols, d.Meta = nil, nil
+				docs = append(docs, d)
+			}
 		case 0: // exactly k*512 (+-1) distinct content trigrams
 			k := gen.Pick(r, []int{1, 2, 3, 4})
 			target := k*512 + gen.Pick(r, []int{-1, 0, 1})
